@@ -108,7 +108,11 @@ Reg == <<
   E("LogDynamics", "logdyn", "ctor", 2, 0, 1, 0, "", {}, {}),
   E("LogDynamics.relaxation", "logdyn", "method", 2, 0, 1, 0, "", {1}, {}),
   E("HessianMatrix", "hess", "ctor", 1, 0, 0, 1, "", {}, {}),
-  E("HessianMatrix.diagonalize_hessian", "hess", "method", 2, 0, 0, 1, "", {}, {})
+  E("HessianMatrix.diagonalize_hessian", "hess", "method", 2, 0, 0, 1, "", {}, {}),
+  F("fits", 2, 0, 0, 0, {}),
+  F("continuousvector", 1, 0, 0, 0, {}),
+  F("triangle_angle", 1, 0, 0, 0, {}),
+  F("indicehis", 1, 0, 0, 0, {})
 >>
 
 NE      == Len(Reg)
